@@ -400,5 +400,5 @@ func checkC06(c ConcCase, cr *concRun, out *RunOut) *Violation {
 func init() {
 	Register(propConc{id: "C06",
 		rule: "cases: 2-4 concurrent clients (3-8 operations each: autocommit Set/Get/GetReader/Delete/GetKeys/Create and short RU/RC transactions) on 2-3 shared keys, optional collector actor (GC timer / direct collector), initial values committed first, final read-back; seeded schedule (uniform with stickiness/timer probability, or PCT depth 1-3); oracle: direct rules (foreign or partial content, a never-deleted key reported missing, unexpected error) then porcupine linearizability against the reference model (timeout = inconclusive), deadlock/panic detectors; distinct = hash(program, context-switch trace); non-trivial = at least two operations of different clients on one key (or a commit / GetKeys) overlapped in call/return time",
-		runs: [2]int{5000, 200000}, gen: genC06, check: checkC06})
+		runs: [2]int{12000, 200000}, gen: genC06, check: checkC06})
 }
